@@ -10,7 +10,7 @@ RULE = (
     "distinct = hash of the configuration; trivial = no option restricts anything"
 )
 ASSUMPTIONS = ["filter_ and stop are pure functions of the node (the library may evaluate stop more than once per node)"]
-GATES = ["mon.C06.sequence", "C06.stop_on_start", "C06.filtered_with_visible_children", "C06.stop_below_filtered", "C06.empty_group", "C06.maxlevel_le_0", "C06.maxlevel_cuts", "C06.predicate_objects_reused", "C06.predicate_shape.1", "C06.predicate_shape.2", "C06.predicate_shape.3", "C06.predicate_shape.4", "C06.maxlevel_int_subclass", "mon.C06.raising_predicate", "C06.prepared_before_predicates_settled", "C06.truthy_non_bool_answers", "C06.abandoned_traversal_before"]
+GATES = ["C06.wide_level", "mon.C06.sequence", "C06.stop_on_start", "C06.filtered_with_visible_children", "C06.stop_below_filtered", "C06.empty_group", "C06.maxlevel_le_0", "C06.maxlevel_cuts", "C06.predicate_objects_reused", "C06.predicate_shape.1", "C06.predicate_shape.2", "C06.predicate_shape.3", "C06.predicate_shape.4", "C06.maxlevel_int_subclass", "mon.C06.raising_predicate", "C06.prepared_before_predicates_settled", "C06.truthy_non_bool_answers", "C06.abandoned_traversal_before"]
 
 
 def plan(tier, seed, jobs):
@@ -257,7 +257,11 @@ def run(ctx):
     for r in range(nrand):
         rng = ctx.rng("rand", r)
         n = rng.randint(6, 30)
-        par, kind = gen.random_tree(rng, n)
+        wide = r % 11 == 4  # levels / child lists wider than any batching or fast-path threshold
+        if wide:
+            n = rng.choice((80, 150, 300))
+            ctx.count("C06.wide_level")
+        par, kind = gen.random_tree(rng, n, rng.choice(("star", "binary", "uniform", "broom")) if wide else None)
         ch = gen.children_of(par)
         fam = fams[r % len(fams)]
         nodes = TR.build(par, fam)
